@@ -461,6 +461,7 @@ type world struct {
 	lastAlter  map[string]int // table/aspect -> sequence number of the last applied ALTER of that aspect
 	lastMarker map[string]int // marker name/kind -> sequence number of the last applied marker write
 	knownOnce  bool
+	killUsed   bool
 }
 
 func newWorld(e env, cat *fakech.CtrlCatalog, o *evid.Obs) *world {
@@ -491,11 +492,16 @@ func newWorld(e env, cat *fakech.CtrlCatalog, o *evid.Obs) *world {
 		}
 		w.firedN++
 		w.fired = c
-		if w.pending > 0 || (!c.Query && c.Stmt.Kind == "alter" && f.Mode == "after") {
+		if w.pending > 0 || (!c.Query && c.Stmt.Kind == "alter" && (f.Mode == "after" || f.Mode == "kill-after")) {
 			w.betweenAM = true
 		}
-		if f.Mode == "after" {
+		switch f.Mode {
+		case "after":
 			return fakech.CtrlFailAfter
+		case "kill-before":
+			return fakech.CtrlKillBefore
+		case "kill-after":
+			return fakech.CtrlKillAfter
 		}
 		return fakech.CtrlFailBefore
 	}
@@ -547,7 +553,29 @@ func (w *world) restart(cfg rotCfg) (ok bool, run int, verr error) {
 
 func (w *world) exec(cfg rotCfg, run int) (ok bool, _ int, verr error) {
 	w.fired, w.firedN, w.pending = nil, 0, 0
-	err := runRotate(w.conn, w.e, cfg)
+	var err error
+	if w.armed != nil && strings.HasPrefix(w.armed.Mode, "kill") {
+		// the process is killed at the fault point: Rotate runs in its own goroutine which the
+		// fake parks forever (no deferred function, no error path runs); leaked on purpose
+		w.killUsed = true
+		done := make(chan error, 1)
+		go func() {
+			defer func() {
+				if p := recover(); p != nil {
+					done <- fmt.Errorf("panic: %v", p)
+				}
+			}()
+			done <- runRotate(w.conn, w.e, cfg)
+		}()
+		select {
+		case err = <-done:
+		case <-w.conn.Parked():
+			w.o.Tag("killed-run")
+			err = fmt.Errorf("killed at the fault point")
+		}
+	} else {
+		err = runRotate(w.conn, w.e, cfg)
+	}
 	if _, uq := w.conn.Unrecognised(); uq > 0 {
 		statMu.Lock()
 		unrecQueries += uq
@@ -982,6 +1010,9 @@ func genHistory(rt *rapid.T) histCase {
 			case 1:
 				st.Fault.Persist = true
 			}
+			if rapid.IntRange(0, 7).Draw(rt, "kill") == 0 {
+				st.Fault.Mode = "kill-" + st.Fault.Mode // killed there instead of seeing an error
+			}
 		}
 		c.Steps = append(c.Steps, st)
 	}
@@ -1016,6 +1047,11 @@ func predHistory0(c histCase, o *evid.Obs) error {
 		return err
 	}
 	w := newWorld(c.Env, base, o)
+	defer func() {
+		if w.killUsed {
+			w.conn.Discard() // parked goroutines keep the connection alive: release what it holds
+		}
+	}()
 	o.Tag(fmt.Sprintf("clustered:%v", c.Env.Clustered))
 	var trail []string
 	lastOK := true
